@@ -433,6 +433,7 @@ func checkC04(w *World, r *Report) {
 	ruleFlushWrites(w, r, "C04")
 	ruleRenderSize(w, r, "C04")
 	ruleTermSize(w, r, "C04")
+	ruleWriterNew(w, r, "C04")
 	ruleRowsAreLines(w, r, "C04")
 	ruleFormatExchange(w, r, "C04")
 	ruleDecorWidthAccounting(w, r, "C04")
